@@ -17,17 +17,20 @@ theorem Frame.trans {s s1 s2 : St S Unit π} (h1 : Frame s s1) (h2 : Frame s1 s2
   ⟨h2.1.trans h1.1, h2.2.1.trans h1.2.1, h2.2.2.1.trans h1.2.2.1, h2.2.2.2.1.trans h1.2.2.2.1,
    h2.2.2.2.2.trans h1.2.2.2.2⟩
 
-theorem Frame.sinv {E : Env S Unit π} {s s' : St S Unit π} (f : Frame s s') (h : SInv E s) : SInv E s' := by
+theorem Frame.sinv {E : Env S Unit π} {s s' : St S Unit π} (f : Frame s s') (h : SInv E s)
+    (hc : CacheOK E s'.cache) : SInv E s' := by
   obtain ⟨f1, f2, _, f4, _⟩ := f
   apply h.congr
   · intro nt; unfold St.seenOf; rw [f4]
   · intro nt; unfold St.heapOf; rw [f1]
   · intro nt; unfold St.succOf; rw [f2]
+  · exact hc
 
 /-- the max-priority tables hold derivable programs -/
 structure MInv (E : Env S Unit π) (s : St S Unit π) : Prop where
   rule_gen : ∀ nt P prog, AList.lookup (nt, P) s.maxRule = some prog → gen E.G prog nt = true
   nt_gen : ∀ nt m, AList.lookup nt s.maxNT = some m → gen E.G m nt = true
+  cache_ok : CacheOK E s.cache
 
 theorem genList_of_pointwise (G : TT S Unit) : ∀ (ks : List Prog) (ra : List (Ty × S)),
     ks.length = ra.length → (∀ (j : Nat) m a, ks[j]? = some m → ra[j]? = some a → gen G m (argNT a) = true) →
@@ -78,7 +81,7 @@ theorem init_sound (E : Env S Unit π) (hnd : RowsNodup E.G) : ∀ n : Nat,
           simp only [hrs] at h
           split at h
           · cases h; exact ⟨hm, Frame.refl _⟩
-          · have hm0 : MInv E { s with initS := s.initS ++ [nt] } := ⟨hm.rule_gen, hm.nt_gen⟩
+          · have hm0 : MInv E { s with initS := s.initS ++ [nt] } := ⟨hm.rule_gen, hm.nt_gen, hm.cache_ok⟩
             cases hml : maxLoop E n { s with initS := s.initS ++ [nt] } nt rs none with
             | none => simp [hml] at h
             | some sb =>
@@ -95,11 +98,11 @@ theorem init_sound (E : Env S Unit π) (hnd : RowsNodup E.G) : ∀ n : Nat,
               | none =>
                 simp only [Option.some.injEq] at h
                 subst h
-                exact ⟨⟨hm1.rule_gen, hm1.nt_gen⟩, hf1'⟩
+                exact ⟨⟨hm1.rule_gen, hm1.nt_gen, hm1.cache_ok⟩, hf1'⟩
               | some b =>
                 simp only [Option.some.injEq] at h
                 subst h
-                refine ⟨⟨hm1.rule_gen, ?_⟩, hf1'⟩
+                refine ⟨⟨hm1.rule_gen, ?_, hm1.cache_ok⟩, hf1'⟩
                 intro nt' m hl
                 simp only at hl
                 rw [AList.lookup_insert] at hl
@@ -124,14 +127,14 @@ theorem init_sound (E : Env S Unit π) (hnd : RowsNodup E.G) : ∀ n : Nat,
         dsimp only at h
         -- the tail of the iteration once the candidate program is built
         have key : ∀ (s1 : St S Unit π) (prog : Prog) (c : AList (Prog × NT S Unit) π) (bb : Option (Prog × π)),
-            MInv E s1 → Frame s s1 → gen E.G prog nt = true →
+            MInv E s1 → Frame s s1 → gen E.G prog nt = true → CacheOK E c →
             (∀ b, bb = some b → b.1 = prog ∨ best = some b) →
             maxLoop E n { s1 with cache := c, maxRule := AList.insert (nt, P) prog s1.maxRule } nt rest bb
               = some (s', best') →
             MInv E s' ∧ Frame s s' ∧ (∀ b, best' = some b → gen E.G b.1 nt = true) := by
-          intro s1 prog c bb hm1 hf1 hg hbb h1
+          intro s1 prog c bb hm1 hf1 hg hcc hbb h1
           have hm2 : MInv E { s1 with cache := c, maxRule := AList.insert (nt, P) prog s1.maxRule } := by
-            refine ⟨?_, hm1.nt_gen⟩
+            refine ⟨?_, hm1.nt_gen, hcc⟩
             intro nt' P' prog' hl
             simp only at hl
             rw [AList.lookup_insert] at hl
@@ -195,7 +198,8 @@ theorem init_sound (E : Env S Unit π) (hnd : RowsNodup E.G) : ∀ n : Nat,
                   exact genList_of_pointwise E.G arguments ra hal' hargs
                 split at h
                 · simp at h
-                · refine key _ _ _ _ hm1 hf1 hg ?_ h
+                · rename_i c pr hcp
+                  refine key _ _ _ _ hm1 hf1 hg (computePrio_spec E _ hm1.cache_ok nt _ hg c pr hcp).2 ?_ h
                   intro b hb
                   split at hb
                   · simp only [Option.some.injEq] at hb; subst hb; exact Or.inl rfl
@@ -212,7 +216,8 @@ theorem init_sound (E : Env S Unit π) (hnd : RowsNodup E.G) : ∀ n : Nat,
           have hg : gen E.G (.node P []) nt = true := by rw [gen, hr]; rfl
           split at h
           · simp at h
-          · refine key _ _ _ _ hm (Frame.refl _) hg ?_ h
+          · rename_i c pr hcp
+            refine key _ _ _ _ hm (Frame.refl _) hg (computePrio_spec E _ hm.cache_ok nt _ hg c pr hcp).2 ?_ h
             intro b hb
             split at hb
             · simp only [Option.some.injEq] at hb; subst hb; exact Or.inl rfl
@@ -368,7 +373,7 @@ theorem initHeapLoop_sound (E : Env S Unit π) (nt : NT S Unit) :
           have hs1 := hs.pushNew nt prog hg
           have hmr := pushNew_maxRule E s nt prog
           have hm1 : MInv E (pushNew E s nt prog) :=
-            ⟨fun a b c hh => hm.rule_gen a b c (hmr.1 ▸ hh), fun a b hh => hm.nt_gen a b (hmr.2 ▸ hh)⟩
+            ⟨fun a b c hh => hm.rule_gen a b c (hmr.1 ▸ hh), fun a b hh => hm.nt_gen a b (hmr.2 ▸ hh), hs1.cache_ok⟩
           exact ih _ _ hs1 hm1 h
 
 theorem initHeaps_sound (E : Env S Unit π) :
@@ -429,14 +434,14 @@ theorem prologue_sound (E : Env S Unit π) (hnd : RowsNodup E.G) (fuel : Nat) (s
       | none => simp [h3] at h
       | some s3 =>
         simp only [h3] at h
-        obtain ⟨hs3, _⟩ := initHeaps_sound E _ _ _ (hf2.sinv (hf1.sinv hs)) hm2 h3
+        obtain ⟨hs3, _⟩ := initHeaps_sound E _ _ _ (hf2.sinv (hf1.sinv hs hm1.cache_ok) hm2.cache_ok) hm2 h3
         exact firstQueries_sound E fuel _ _ _ hs3 h
 
 theorem SInv.addDeleted {E : Env S Unit π} {s : St S Unit π} (h : SInv E s) (p : Prog) : SInv E (s.addDeleted p) := by
   unfold St.addDeleted
   split
   · exact h
-  · exact h.congr (fun _ => rfl) (fun _ => rfl) (fun _ => rfl)
+  · exact h.congr (fun _ => rfl) (fun _ => rfl) (fun _ => rfl) h.cache_ok
 
 theorem nextLoop_sound (E : Env S Unit π) (fuel : Nat) :
     ∀ (k : Nat) (s : St S Unit π) (cur : Option Prog) (g' : Gen S Unit π) (r : Option Prog),
@@ -485,7 +490,9 @@ theorem ginv_new (E : Env S Unit π) : GInv E (Gen.new E.G) := by
   have hseen : ∀ nt, (St.empty E.G : St S Unit π).seenOf nt = [] := fun nt => getD_lookup_map_const _ _ _
   have hheap : ∀ nt, (St.empty E.G : St S Unit π).heapOf nt = [] := fun nt => getD_lookup_map_const _ _ _
   have hsucc : ∀ nt, (St.empty E.G : St S Unit π).succOf nt = [] := fun nt => getD_lookup_map_const _ _ _
-  refine ⟨⟨?_, ?_, ?_⟩, fun _ => ⟨?_, ?_⟩⟩
+  have hcache : CacheOK E (St.empty E.G : St S Unit π).cache := by
+    intro p nt v h; simp [St.empty] at h
+  refine ⟨⟨?_, ?_, ?_, hcache, ?_⟩, fun _ => ⟨?_, ?_, hcache⟩⟩
   · intro nt p hp
     have : p ∈ (St.empty E.G : St S Unit π).seenOf nt := hp
     rw [hseen] at this; cases this
@@ -495,6 +502,9 @@ theorem ginv_new (E : Env S Unit π) : GInv E (Gen.new E.G) := by
   · intro nt k v hk
     have : AList.lookup k ((St.empty E.G : St S Unit π).succOf nt) = some v := hk
     rw [hsucc] at this; simp at this
+  · intro nt e he
+    have : e ∈ (St.empty E.G : St S Unit π).heapOf nt := he
+    rw [hheap] at this; cases this
   · intro nt P prog h; simp [Gen.new, St.empty] at h
   · intro nt m h; simp [Gen.new, St.empty] at h
 
